@@ -20,23 +20,28 @@ int cmd_time_replay(const Args& a)
         long inc, mtg, ply, side;
         sscanf(line.c_str(), "%ld %ld %ld %ld", &inc, &mtg, &ply, &side);
         std::vector<long> rems = jarr_int(line.substr(bar + 1));
-        std::string rs = "[", ts = "[";
-        for (size_t i = 0; i < rems.size(); ++i)
-        {
+        // three orders of evaluation of the same clock states: ascending along the chain (a), every state after a call at another
+        // ply and for the other colour (f: as in a game, where the previous call was a different clock state), descending (d).
+        // "For every clock state ... the thinking time" is a function of the clock state: the three must agree.
+        auto call = [&](long rem, long p, long sd) {
             Limits lim;
-            lim.timeleft[side] = (int)rems[i];
-            lim.timeinc[side] = (int)inc;
-            lim.timeleft[1 - side] = 12345;   // the opponent's clock must not matter
-            lim.timeinc[1 - side] = 777;
+            lim.timeleft[sd] = (int)rem;
+            lim.timeinc[sd] = (int)inc;
+            lim.timeleft[1 - sd] = 12345;   // the opponent's clock must not matter
+            lim.timeinc[1 - sd] = 777;
             lim.movestogo = (int)mtg;
-            Duration t = TimeManager::calculateTime(lim, Color(side), (int)ply);
-            rs += (i ? "," : "") + std::to_string(rems[i]);
-            // keep the value inside 32 bits for the monitor; anything outside is a violation it will see as such
-            long tv = t > 2000000000L ? 2000000000L : (t < -2000000000L ? -2000000000L : (long)t);
-            ts += (i ? "," : "") + std::to_string(tv);
+            Duration t = TimeManager::calculateTime(lim, Color(sd), (int)p);
             calls++;
-        }
-        fprintf(f[chains % shards], "{\"inc\":%ld,\"mtg\":%ld,\"ply\":%ld,\"side\":%ld,\"rem\":%s],\"t\":%s]}\n", inc, mtg, ply, side, rs.c_str(), ts.c_str());
+            // keep the value inside 32 bits for the monitor; anything outside is a violation it will see as such
+            return t > 2000000000L ? 2000000000L : (t < -2000000000L ? -2000000000L : (long)t);
+        };
+        std::vector<long> ta(rems.size()), tf(rems.size()), td(rems.size());
+        for (size_t i = 0; i < rems.size(); ++i) ta[i] = call(rems[i], ply, side);
+        for (size_t i = 0; i < rems.size(); ++i) { call(rems[i] / 2 + 1000, ply + 1, 1 - side); tf[i] = call(rems[i], ply, side); }
+        for (size_t i = rems.size(); i-- > 0;) td[i] = call(rems[i], ply, side);
+        auto arr = [](const std::vector<long>& v) { std::string o = "["; for (size_t i = 0; i < v.size(); ++i) o += (i ? "," : "") + std::to_string(v[i]); return o + "]"; };
+        fprintf(f[chains % shards], "{\"inc\":%ld,\"mtg\":%ld,\"ply\":%ld,\"side\":%ld,\"rem\":%s,\"t\":%s,\"tf\":%s,\"td\":%s}\n", inc, mtg, ply, side,
+                arr(rems).c_str(), arr(ta).c_str(), arr(tf).c_str(), arr(td).c_str());
         chains++;
     }
     for (auto h : f) fclose(h);
